@@ -8,14 +8,18 @@ from harness import util
 THEOREMS = ['C13_cumint_last_is_total', 'C13_down_plus_up', 'C13_cumsum_methods_agree',
             'C13_centered_difference_affine', 'C13_advection_sbp', 'C13_geopotential_is_trapezoid',
             'C13_geo_sparse_eq_dense', 'C13_rejects_bad_levels', 'C13_rejects_bad_levels_R',
-            'C13_hyps_satisfiable']
+            'C13_hyps_satisfiable', 'C13_model_is_source', 'C13_gen_sigma_complete', 'C13_init_is_source']
 LEVEL = 'proof'
 LEVEL_TEXT = ('machine-checked theorems (Coq) for every field, every layer count K>=1 and every boundary list: '
               'cumulative integrals, agreement of all cumsum strategies, affine exactness, summation by parts, '
               'geopotential = R x log-sigma trapezoid (dense and cumulative-sum forms), rejection predicate; '
               'the Gallina model is executed (extraction) against the implementation on generated columns/axes')
 LEVEL_NOTE = ('theorems are about the Gallina model Model/Sigma.v (all fields, all K, all boundaries); '
-              'log(centers) enters as a table; model tied to the code by differential correspondence')
+              'log(centers) enters as a table; model tied to the code by differential correspondence and, for the '
+              'array programs of sigma_coordinates.py along the vertical axis, by C13_model_is_source: the model equals '
+              'the transcription of the source AST regenerated on every run (tools/translate/gen_sigma.py, array DSL '
+              'Model/ArrDSL.v); the __init__ validity tests: C13_init_is_source (ordered field); a length mismatch between the two operands of an elementwise operation is not detected by the proofs; '
+              'jax_numpy_utils cumsum and the primitive_equations geopotential operators are not transcribed')
 
 _jax = None
 def J():
